@@ -9,6 +9,17 @@ def inc_str(inc, root):
     return "/".join(list(inc["dirs"]) + [inc["file"]])
 
 
+def make_links(links, root):
+    """the symbolic links of the specification's file tree (a relative link, so that the tree can be moved)"""
+    for l in links or []:
+        src = os.path.join(root, *l["from"][1:])
+        dst = os.path.join(root, *l["to"][1:])
+        os.makedirs(os.path.dirname(src), exist_ok=True)
+        os.makedirs(dst, exist_ok=True)
+        if not os.path.lexists(src):
+            os.symlink(os.path.relpath(dst, os.path.dirname(src)), src)
+
+
 def with_inc_strings(s, root):
     return dict(s, incs=[inc_str(i, root) for i in s["incs"]])
 
@@ -27,6 +38,7 @@ def judge(case):
             with open(os.path.join(d, f["path"]["file"]), "w", encoding="utf-8") as fh:
                 fh.write(absyn.render(with_inc_strings(f["s"], root), rng))
         os.makedirs(os.path.join(root, "elsewhere"), exist_ok=True)
+        make_links(case.get("links"), root)
         main = with_inc_strings(case["s"], root)
         text = absyn.render(main, rng)
         back = absyn.tree2abs(realrun.parse_tree(text), None)
@@ -74,7 +86,7 @@ def run(rep, tier, seed):
         # IncludeIsInlining and IllFormedCallRefused are evaluated inside EmitAll (once per final state, sharing the unrolled and the
         # inlined script) and printed with each case as 'inlining' / 'refused'
         cfg = loadcheck.cfg_text(n_, mains, "Items", emit=False, invariants=["RegistryAgrees"], props=[],
-                                 fs="FS7", basedir="W", extra_consts="CONSTRAINT EmitAll\n")
+                                 fs="FS7", basedir="W", extra_consts="CONSTANT LinkTarget <- LinkTarget7\nCONSTRAINT EmitAll\n")
         r = common.run_tlc("MC_C07", cfg, timeout=3000)
         common.require_ok(r, "MC_C07")
         rep.add_tlc(r, "MC_C07 %s (include layouts) x up to %d calls/items over an 11-file tree" % (mains, n_))
@@ -86,6 +98,7 @@ def run(rep, tier, seed):
                 broken[0]["inlining"], broken[0]["refused"], json.dumps(broken[0]["s"])[:1500]))
         tagged.append(r)
     files = tagged[0].tagged("FILES")[0]
+    links = tagged[0].tagged("LINKS")[0]
     seen = {}
     for r in tagged:
         for c in r.tagged("CASE"):
@@ -93,6 +106,7 @@ def run(rep, tier, seed):
     cases = list(seen.values())
     for c in cases:
         c["files"] = files
+        c["links"] = links
     loadcheck.replay_cases(rep, cases, seed, sections=("ops", "modes"), fingerprint=fingerprint, judge=judge, strict_cls=False)
     random_trees(rep, tier, seed)
     rep.cov["working_directories_per_case"] = 3
